@@ -393,7 +393,8 @@ def gen_sle_case(rng):
             nl, ns = flows(); ops.append(['set', nl, ns])
         elif r < 0.3 and ops:
             ops.append(['reset'])
-        sol = rng.choice([None, None, None, 0.0625, 0.5, -0.125, 1., 0.25, 0.75, 0.875, 0.9375])
+        # 0.0 / 0 : the solute is declared insoluble (a given value that is falsy in Python)
+        sol = rng.choice([None, None, None, None, 0.0625, 0.5, -0.125, 1., 0.25, 0.75, 0.875, 0.9375, 0.0, 0.0, 0])
         solute = rng.choice(['P_', 'P_', 'Q_', 'S_', 'R_', 'Zz'])
         T = rng.choice([300., 330., 250., 320., 256., 450., None])
         ops.append(['call', {'solute': solute, 'T': T, 'H': rng.choice([None] * 9 + [0.]) if T is not None else rng.choice([None, 0.]),
@@ -401,10 +402,15 @@ def gen_sle_case(rng):
                              'e': [rng.choice([0.0625, 0.25, -0.125, 0.5, 1.5]), rng.choice([0., 0.125, -0.0625]),
                                    rng.choice([0., 2.0 ** -8, -2.0 ** -9]), rng.choice([0., 2.0 ** -14])],
                              'k': rng.choice([0, 1, 1, 2])}])
-    if rng.random() < 0.2:
+    if rng.random() < 0.3:
         # a pure-solute call first, then a mixture on the same stream (the solver object is kept by the stream)
         l, s = [0.] * 4, [0.] * 4
         j = rng.choice([0, 1]); l[j] = rng.choice([1., 2., 0.5])
+        if rng.random() < 0.5: s[j] = rng.choice([0.5, 1.])
+        if rng.random() < 0.6:
+            # an inert chemical (S_ carries no activity-coefficient groups) in both phases: the solute is still the only
+            # chemical in equilibrium, so the pure-solute rule applies and must move nothing but the solute
+            l[3] = rng.choice([0., 0.75, 1.5]); s[3] = rng.choice([0.5, 2., 0.])
         nl, ns = [rng.choice([0.5, 1., 3.]) for _ in range(3)] + [0.], [0.] * 4
         ops = [['call', {'solute': SLE_IDS[j], 'T': rng.choice([300., 250., 330.]), 'H': None, 'P': None, 'sol': None,
                          'e': [0.25, 0., 0., 0.], 'k': 1}], ['set', nl, ns]] + ops
@@ -412,7 +418,27 @@ def gen_sle_case(rng):
     ops = [o for o in ops if not (o[0] == 'call' and o[1]['T'] is None and o[1]['H'] is not None)]
     if not any(o[0] == 'call' for o in ops):
         ops.append(['call', {'solute': 'P_', 'T': 300., 'H': None, 'P': None, 'sol': None, 'e': [0.25, 0., 0., 0.], 'k': 1}])
-    return {'kind': 'sle', 'ideal': ideal, 'act': rng.choice([None, None, 2., 0.5]), 'l': l, 's': s, 'ga': a, 'gB': B, 'ops': ops}
+    return {'kind': 'sle', 'ideal': ideal, 'act': rng.choice([None, None, 2., 0.5, 0.0]), 'l': l, 's': s, 'ga': a, 'gB': B, 'ops': ops}
+
+def gen_gcache_case(rng):
+    """a history of thermo.Gamma(chemicals) requests: the same chemicals listed in different orders, sub-lists, repeats,
+    lists with fewer than two chemicals that carry groups (D_ has none)"""
+    reqs = []
+    base = rng.sample(range(5), rng.choice([2, 3, 4]))
+    for _ in range(rng.randint(2, 6)):
+        r = rng.random()
+        if r < 0.35 and reqs:
+            q_ = list(rng.choice(reqs)); rng.shuffle(q_)            # same set, another order
+        elif r < 0.5 and reqs:
+            q_ = list(rng.choice(reqs))                             # identical request
+        elif r < 0.7:
+            q_ = list(base); rng.shuffle(q_)
+        elif r < 0.85:
+            q_ = rng.sample(range(5), rng.choice([1, 2, 3]))
+        else:
+            q_ = [3, rng.choice([0, 1, 2, 4])]; rng.shuffle(q_)     # one chemical with groups only
+        reqs.append(q_)
+    return {'kind': 'gcache', 'reqs': reqs}
 
 def gen_cases(rng, tier):
     n = 150 if tier == 'quick' else 2500
@@ -426,6 +452,7 @@ def gen_cases(rng, tier):
     cases += [gen_inner_case(rng) for _ in range(m)]
     cases += [gen_solve_case(rng) for _ in range(m)]
     cases += [gen_sle_case(rng) for _ in range(m + m // 2)]
+    cases += [gen_gcache_case(rng) for _ in range(20 if tier == 'quick' else 300)]
     return cases
 
 # ------------------------------------------------------------------ implementation side: LLE wrapper with stubbed solvers
@@ -594,8 +621,41 @@ def run_sle(case):
         sle_mod.solubility_eutectic, sle_mod.flx = saved
     return {'obs': obs}
 
+class fresh_gamma_cache:
+    """run with the class-level caches of the activity-coefficient classes empty (restored afterwards): objects built
+    inside are built for the order requested there, whatever the rest of the process asked for before"""
+    def __enter__(self):
+        from thermosteam.equilibrium import activity_coefficients as ac
+        self.classes = [c for c in vars(ac).values() if isinstance(c, type) and isinstance(vars(c).get('_cached'), dict)]
+        self.saved = [dict(c._cached) for c in self.classes]
+        for c in self.classes: c._cached.clear()
+        return self
+    def __exit__(self, *a):
+        for c, d in zip(self.classes, self.saved):
+            c._cached.clear(); c._cached.update(d)
+
+def run_gcache(case):
+    e = use_thermo('thermo_lle'); tmo = e['tmo']
+    chems = tmo.settings.chemicals.tuple
+    Gamma = e['thermo_lle'].Gamma            # the default group-contribution class (Dortmund)
+    objs, obs = [], []
+    with fresh_gamma_cache():
+        for r in case['reqs']:
+            g = Gamma([chems[i] for i in r])
+            order = [IDS.index(c.ID) for c in g.chemicals]
+            if type(g).__name__ == 'IdealActivityCoefficients':
+                obs.append(['ideal', order])
+            else:
+                k = next((n for n, o in enumerate(objs) if o is g), None)
+                if k is None: objs.append(g); k = len(objs) - 1
+                # the per-chemical arrays really are in the order the object reports
+                rs_ok = len(g._rs) == len([i for i in order if i != 3])       # D_ carries no groups
+                obs.append(['group', k, order, rs_ok])
+    return {'obs': obs}
+
 def run_impl(case):
     k = case['kind']
+    if k == 'gcache': return run_gcache(case)
     if k == 'lle': return run_lle(case)
     if k == 'inner': return run_inner(case)
     if k == 'solve': return run_solve(case)
@@ -744,7 +804,7 @@ def c_senv(ideal):
 
 def c_sop(case, op):
     if op[0] == 'set': return f'(SSetFlow {qlist(op[1])} {qlist(op[2])})'
-    if op[0] == 'reset': return f'(SReset {copt(case["act"], q)})'
+    if op[0] == 'reset': return f'(SReset {copt(case["act"] or None, q)})'
     a = op[1]
     solute = SLE_IDS.index(a['solute']) if a['solute'] in SLE_IDS else None
     P = a['P'] if a['P'] else None
@@ -774,11 +834,18 @@ def coq_sle(case, out):
         ops.append(t)
     ok = all(o['ret'] is None or o['ret'][0] != 'ok' or o['ret'][1] for o in out['obs'])
     s0 = f'(mksstrm {qlist(case["l"])} {qlist(case["s"])} {q(298.15)} {q(101325.)})'
-    return (f'(srun_check {c_senv(case["ideal"])} (sst_init {copt(case["act"], q)}, {s0}) {clist(ops)} '
+    return (f'(srun_check {c_senv(case["ideal"])} (sst_init {copt(case["act"] or None, q)}, {s0}) {clist(ops)} '
             f'{clist([c_sobs(o) for o in out["obs"]])} && {cbool(ok)})')
+
+def coq_gcache(case, out):
+    reqs = clist([nlist(r) for r in case['reqs']])
+    exp = clist([f'(GIdeal {nlist(o[1])})' if o[0] == 'ideal' else f'(GGroup {cnat(o[1])} {nlist(o[2])})' for o in out['obs']])
+    ok = all(o[0] == 'ideal' or o[3] for o in out['obs'])
+    return (f'(list_eqb gres_eqb (gamma_run (fun i_ => negb (Nat.eqb i_ 3)) [] {reqs}) {exp} && {cbool(ok)})')
 
 def coq_case(case, out):
     k = case['kind']
+    if k == 'gcache': return coq_gcache(case, out)
     if k == 'lle': return coq_lle(case, out)
     if k == 'inner': return coq_inner(case, out)
     if k == 'solve': return coq_solve(case, out)
@@ -804,6 +871,8 @@ def nontrivial(case, out):
         return out['r'][0] == 'ok'
     if case['kind'] == 'sle':
         return any(o['ret'] is not None and o['ret'][0] == 'ok' for o in out.get('obs', []))
+    if case['kind'] == 'gcache':
+        return len({tuple(sorted(r)) for r in case['reqs']}) < len({tuple(r) for r in case['reqs']})   # a set seen in two orders
     return True
 
 def classify(case, out):
@@ -821,6 +890,8 @@ def classify(case, out):
         r = out['r']
         ks.append(case['kind'] + ':' + (r[0] if r[0] == 'ok' else r[2]))
         if case['kind'] == 'solve': ks.append('method:' + case['method'] + (':single' if case['single'] else ''))
+    elif case['kind'] == 'gcache':
+        for o in out.get('obs', []): ks.append('gamma-request:' + o[0])
     elif case['kind'] == 'sle':
         for op, o in zip(case['ops'], out.get('obs', [])):
             if op[0] != 'call': ks.append('sle-op:' + op[0]); continue
@@ -863,9 +934,10 @@ def oracle_real(case):
                 f'without l={np.round(l2, 4).tolist()} L={np.round(L2, 4).tolist()}')
     # (1) equal activities in the two liquids
     if two and case.get('check_activity', True):
-        gamma = tmo.settings.get_thermo().Gamma([tmo.settings.chemicals[i] for i in ids])
-        xl, xL = l / l.sum(), L / L.sum()
-        al, aL = xl * gamma(xl, T), xL * gamma(xL, T)
+        with fresh_gamma_cache():       # a model built on its own for this order, not whatever the cache holds
+            gamma = tmo.settings.get_thermo().Gamma([tmo.settings.chemicals[i] for i in ids])
+            xl, xL = l / l.sum(), L / L.sum()
+            al, aL = xl * gamma(xl, T), xL * gamma(xL, T)
         rel = np.abs(al - aL) / np.maximum(np.maximum(al, aL), 1e-12)
         if rel.max() > 0.02:
             return (f'activities differ between the two liquids after LLE ({case["method"]}) at T={T}: '
@@ -1067,8 +1139,52 @@ def oracle_lle_stub(case):
             l, L = o['l'], o['L']
     return None
 
+def oracle_gcache(case):
+    """thermo.Gamma(chemicals) must hand out a model built for the order asked for, and its coefficients must be those of a
+    model built on its own for that order"""
+    out = run_gcache(case)
+    e = env(); tmo = e['tmo']; chems = tmo.settings.chemicals.tuple
+    for r, o in zip(case['reqs'], out['obs']):
+        order = o[1] if o[0] == 'ideal' else o[2]
+        if order != r:
+            return (f'gamma-cache: thermo.Gamma({[IDS[i] for i in r]}) returned the model built for {[IDS[i] for i in order]} '
+                    f'(requests so far: {[[IDS[i] for i in q_] for q_ in case["reqs"]]}); activity coefficients are attributed to the wrong chemicals')
+    return None
+
+def oracle_order(case):
+    """the split of one feed must not depend on the order in which the property package lists its chemicals (the same
+    Chemical objects, several packages in one process), and the activities -- evaluated with a model built on its own for
+    that order -- must agree between the two liquids"""
+    e = env(); tmo = e['tmo']
+    ref = None
+    for order in case['orders']:
+        tmo.settings.set_thermo(order, cache=True)
+        s = tmo.MultiStream(None, T=298.15, P=101325., phases='lLg')
+        s.lle.method = case['method']
+        for k, v in case['feed'].items(): s.imol['l', k] = v
+        s.lle(T=case['T'], top_chemical=case['top'])
+        ids = sorted(case['feed'])
+        l = np.array(s.imol['l', ids], float); L = np.array(s.imol['L', ids], float)
+        tot = l.sum() + L.sum()
+        if l.sum() > 1e-9 * tot and L.sum() > 1e-9 * tot:
+            with fresh_gamma_cache():
+                gamma = tmo.settings.get_thermo().Gamma([tmo.settings.chemicals[i] for i in ids])
+                xl, xL = l / l.sum(), L / L.sum()
+                al, aL = xl * gamma(xl, case['T']), xL * gamma(xL, case['T'])
+            rel = np.abs(al - aL) / np.maximum(np.maximum(al, aL), 1e-12)
+            if rel.max() > 0.02:
+                return (f'gamma-cache: package order {order}: activities differ between the two liquids '
+                        f'({case["method"]}, T={case["T"]}): l {np.round(al, 4).tolist()} vs L {np.round(aL, 4).tolist()}')
+        if ref is None: ref = (order, l, L)
+        elif np.abs(l - ref[1]).max() + np.abs(L - ref[2]).max() > 1e-2 * tot:
+            return (f'gamma-cache: the split depends on the order in which the package lists its chemicals: {ref[0]} gives '
+                    f'L={np.round(ref[2], 4).tolist()}, {order} gives L={np.round(L, 4).tolist()} (chemicals {ids})')
+    return None
+
 def oracle(case):
     k = case['kind']
+    if k == 'gcache': return oracle_gcache(case)
+    if k == 'real_order': return oracle_order(case)
     if k == 'real': return oracle_real(case)
     if k == 'sle_real': return oracle_sle_real(case)
     if k == 'lle': return oracle_lle_stub(case)
@@ -1081,6 +1197,7 @@ def finding_key(case, msg):
     if msg.startswith('cache:') or msg.startswith('reusing remembered'): return 'lle_use_cache_signed_difference'
     if msg.startswith('sle-history'): return 'sle_stale_pure_chemical'
     if msg.startswith('sle-rules'): return 'sle_rules'
+    if msg.startswith('gamma-cache'): return 'gamma_cache_order'
     return 'C15:' + msg.split(':')[0][:40].replace(' ', '_')
 
 WOE = ['Water', 'Octanol', 'Ethanol']
@@ -1091,6 +1208,16 @@ WITNESSES = [
 ]
 # Coq-side witness of C15_lle_fix_equal_activity_refuted, run through the implementation's inner loop on every run
 CORPUS = [
+    # pure-solute rule with an inert chemical present in both phases, above and below the melting point
+    {'kind': 'sle', 'ideal': False, 'act': None, 'l': [1., 0., 0., 0.75], 's': [0.5, 0., 0., 2.], 'ga': [1.] * 4, 'gB': [[0.] * 4] * 4,
+     'ops': [['call', {'solute': 'P_', 'T': 330., 'H': None, 'P': None, 'sol': None, 'e': [0.25, 0., 0., 0.], 'k': 1}],
+             ['call', {'solute': 'P_', 'T': 300., 'H': None, 'P': None, 'sol': None, 'e': [0.25, 0., 0., 0.], 'k': 1}]]},
+    {'kind': 'gcache', 'reqs': [[0, 1, 2], [2, 0, 1], [0, 1, 2], [1, 0], [0, 1], [3, 4], [4]]},
+    # a given solubility of exactly 0 (the solute is declared insoluble) after a computed call
+    {'kind': 'sle', 'ideal': True, 'act': None, 'l': [1., 0., 3., 0.], 's': [1., 0., 0., 0.], 'ga': [1.] * 4, 'gB': [[0.] * 4] * 4,
+     'ops': [['call', {'solute': 'P_', 'T': 300., 'H': None, 'P': None, 'sol': None, 'e': [0.25, 0., 0., 0.], 'k': 1}],
+             ['call', {'solute': 'P_', 'T': 300., 'H': None, 'P': None, 'sol': 0.0, 'e': [0.25, 0., 0., 0.], 'k': 1}],
+             ['call', {'solute': 'P_', 'T': 300., 'H': None, 'P': None, 'sol': 0, 'e': [0.5, 0., 0., 0.], 'k': 0}]]},
     {'kind': 'sle', 'ideal': True, 'act': None, 'l': [1., 0., 0., 0.], 's': [0., 0., 0., 0.], 'ga': [1.] * 4, 'gB': [[0.] * 4] * 4,
      'ops': [['call', {'solute': 'P_', 'T': 300., 'H': None, 'P': None, 'sol': None, 'e': [0.25, 0., 0., 0.], 'k': 1}],
              ['set', [1., 0., 3., 0.], [0., 0., 0., 0.]],
@@ -1118,6 +1245,13 @@ def search_cases(rng, tier):
         # solve, K-value query (update=False) or plain call elsewhere, then the first conditions again
         cases.append({'kind': 'real', 'chems': chems, 'method': 'differential evolution', 'top': rng.choice([None, chems[1]]),
                       'calls': [[T0, base], [T1, f1, rng.random() < 0.3], [T0, base]], 'scale': rng.choice([1e-3, 8., 1e3])})
+    # several packages in one process that list the same chemicals in different orders
+    for chems, feed in [(['Water', 'Octanol', 'Ethanol'], {'Water': 30., 'Octanol': 10., 'Ethanol': 3.}),
+                        (['Water', 'Butanol', 'Hexane'], {'Water': 20., 'Butanol': 4., 'Hexane': 10.})]:
+        o2 = list(chems); rng.shuffle(o2)
+        if o2 == chems: o2 = chems[::-1]
+        cases.append({'kind': 'real_order', 'orders': [chems, o2, chems[::-1]], 'feed': feed, 'method': 'differential evolution',
+                      'T': rng.choice([300., 340.]), 'top': chems[1]})
     # the contents of the stream are replaced, mole for mole, by other chemicals (same T, same composition vector)
     subs = [(['Water', 'Octanol', 'Hexane'], {'Water': 50., 'Octanol': 50.}, {'Water': 50., 'Hexane': 50.}),
             (['Water', 'Ethanol', 'Octanol', 'Hexane'], {'Water': 60., 'Ethanol': 10., 'Octanol': 30.}, {'Water': 60., 'Ethanol': 10., 'Hexane': 30.}),
